@@ -262,6 +262,7 @@ void nv_result(const volatile void* p, unsigned long long value)
 }
 }
 void sched_set_create_failures(unsigned mask) { createFailMask = mask; workerCreates = 0; }
+void sched_seed_only(unsigned long long seed) { rs = seed * 0x2545F4914F6CDD1DULL + 0x9E3779B97F4A7C15ULL; for(int i = 0; i < 4; ++i) rnd(); }
 void sched_set_devs(const int* st, const int* thr, int n)
 {
   devStep = (int*)malloc(sizeof(int) * (n + 1)); devThread = (int*)malloc(sizeof(int) * (n + 1)); ndev = n;
